@@ -149,6 +149,21 @@ pub fn run(args: &Args) -> Report {
                     break;
                 }
             }
+            // changes by a multiple of a machine-word size (a digest that only sees the low limb)
+            let big_deltas: &[u32] = if cur.is_string() { &[32, 64, 128, 250] } else { &[32, 48] };
+            // (quick: one of the four deltas per field, and only one main-page cell in eight)
+            if !thorough && class.contains("main_page") && rng.below(8) != 0 {
+                continue;
+            }
+            for (k, sh) in big_deltas.iter().enumerate() {
+                if !thorough && cur.is_string() && k != (rng.below(4) as usize) {
+                    continue;
+                }
+                let mut v = v0.clone();
+                if mutate::set_leaf(&mut v, l, &(&orig + (BigUint::from(1u8) << *sh))) {
+                    try_variant(rep, v, format!("{} + 2^{sh}", path_str(l)), format!("{class} (+2^k)"), in_statement, nf);
+                }
+            }
         }
         // friendly-layer count
         try_variant(rep, v0.clone(), "n_verifier_friendly_commitment_layers + 1".into(), "n_verifier_friendly_commitment_layers".into(), stone6, nf + Felt::ONE);
